@@ -165,7 +165,7 @@ impl World {
         adopt(&self.real) == self.model
     }
 
-    pub fn sync_or(&self, cx: &mut Ctx, owners: &[Prop], class_suffix: &str, what: &str) -> R {
+    pub fn sync_or(&mut self, cx: &mut Ctx, owners: &[Prop], class_suffix: &str, what: &str) -> R {
         if self.in_sync() {
             return Ok(());
         }
@@ -191,18 +191,34 @@ impl World {
             Err(Stop::Foreign("diverged after known finding".into()))
         } else {
             // Not this property's operation. The board is still one the library handed out after a legal
-            // history, so this property's own per-state oracle applies to it as it stands: evaluate it once
-            // on the position the board actually denotes, then end the run.
+            // history, so this property's own oracles apply to it as it stands. C06 and C07 can be judged
+            // on the real board alone; for the rest the model is re-adopted from the board (when the board
+            // is playable at all: consistent bitboards, one king per side) and the run continues on the
+            // position the board actually denotes.
+            if cx.prop == Prop::C06 {
+                crate::oracle::check_sound(&self.real, "handed-out", cx)?;
+            }
             if cx.prop == Prop::C07 {
-                if guard(|| (format!("{:#}", self.real), format!("{}", self.real))).is_err() {
-                    cx.fail("C07/panic/format".into(), format!("Display panicked on the board reached {}", what))?;
+                match guard(|| (format!("{:#}", self.real), format!("{}", self.real))) {
+                    Err(()) => cx.fail("C07/panic/format".into(), format!("Display panicked on the board reached {}", what))?,
+                    Ok((text, _)) => match parse_via(&text, Entry::Sfen) {
+                        Ok(Ok(b)) => {
+                            if b != self.real {
+                                cx.fail("C07/roundtrip-differs/shredder-sfen".into(), format!("{} reparsed to a different board ({})", text, what))?;
+                            }
+                        }
+                        Ok(Err(e)) => cx.fail("C07/reparse-failed/shredder-sfen".into(), format!("{} -> {} ({})", text, fen_err_name(&e), what))?,
+                        Err(()) => cx.fail("C07/panic/shredder-sfen".into(), text)?,
+                    },
                 }
             }
-            if bitboards_consistent(&self.real) && got.unsound().is_none() {
-                let mut w2 = World::new(self.real.clone(), got, false);
-                w2.boot_key = self.boot_key;
-                cx.hit("observed_after_foreign_divergence");
-                crate::oracle::observe(&mut w2, cx)?;
+            let playable = bitboards_consistent(&self.real) && got.count(KING, WHITE) == 1 && got.count(KING, BLACK) == 1;
+            if playable {
+                cx.hit("readopted_after_foreign_divergence");
+                self.model = got;
+                self.refresh();
+                self.pure_play = false;
+                return Ok(());
             }
             Err(cx.foreign(&format!("desync {}", what)))
         }
@@ -266,7 +282,7 @@ pub fn boot(b: &Boot, cx: &mut Ctx) -> R<World> {
                         }
                         return Err(cx.foreign("unsound boot state accepted"));
                     }
-                    let w = World::new(real, model, crate::gen::is_reachable_root(t));
+                    let mut w = World::new(real, model, crate::gen::is_reachable_root(t));
                     w.sync_or(cx, &[owner], "denotation", &format!("boot via {}", route.name()))?;
                     Ok(w)
                 }
